@@ -26,6 +26,7 @@ from eos.eve_obj.effect.warfare_buff.base import WarfareBuffEffect
 from eos.eve_obj.modifier import BasePythonModifier
 from eos.eve_obj.modifier import DogmaModifier
 from eos.eve_obj.modifier import ModificationCalculationError
+from eos.item import Ship
 from eos.item.mixin.solar_system import SolarSystemItemMixin
 from eos.pubsub.message import AttrsValueChanged
 from eos.pubsub.message import AttrsValueChangedMasked
@@ -126,7 +127,9 @@ class CalculationService(BaseSubscriber):
     def _handle_fleet_fit_added(self, msg):
         fits_effect_applications = {}
         for projector in self.__projections.get_projectors():
-            if not isinstance(projector.effect, WarfareBuffEffect):
+            # Only projectors which carry buffs are (un)applied, as effect stop
+            # handler unapplies only these
+            if projector not in self.__warfare_buffs:
                 continue
             projector_fit = projector.item._fit
             # Affect this fit by buffs existing in fleet
@@ -141,6 +144,8 @@ class CalculationService(BaseSubscriber):
             if projector_fit is msg.fit:
                 for fit in msg.fit.fleet.fits:
                     if fit is msg.fit:
+                        continue
+                    if fit.ship is None:
                         continue
                     fits_effect_applications.setdefault(
                         projector_fit, []).append(
@@ -157,7 +162,9 @@ class CalculationService(BaseSubscriber):
     def _handle_fleet_fit_removed(self, msg):
         fits_effect_unapplications = {}
         for projector in self.__projections.get_projectors():
-            if not isinstance(projector.effect, WarfareBuffEffect):
+            # Only projectors which carry buffs are (un)applied, as effect stop
+            # handler unapplies only these
+            if projector not in self.__warfare_buffs:
                 continue
             projector_fit = projector.item._fit
             # Unaffect this fit by buffs existing in fleet
@@ -172,6 +179,8 @@ class CalculationService(BaseSubscriber):
             if projector_fit is msg.fit:
                 for fit in msg.fit.fleet.fits:
                     if fit is msg.fit:
+                        continue
+                    if fit.ship is None:
                         continue
                     fits_effect_unapplications.setdefault(
                         projector_fit, []).append(
@@ -192,12 +201,75 @@ class CalculationService(BaseSubscriber):
         self.__affections.register_affectee_item(item)
         if isinstance(item, SolarSystemItemMixin):
             self.__projections.register_solsys_item(item)
+        # Effects which were projected onto the item while it was not loaded
+        # start to affect it (and, for ships, items aboard) now
+        self.__revise_tgt_projections(item, True)
+        # Ship which becomes available receives warfare buffs of its own fit
+        # and of its fleet
+        if isinstance(item, Ship):
+            fits_msgs = {}
+            for projector in self.__projections.get_projectors():
+                if projector not in self.__warfare_buffs:
+                    continue
+                projector_fit = projector.item._fit
+                if projector_fit is msg.fit or (
+                    msg.fit.fleet is not None and
+                    projector_fit.fleet is msg.fit.fleet
+                ):
+                    fits_msgs.setdefault(projector_fit, []).append(
+                        EffectApplied(
+                            projector.item, projector.effect.id, (item,)))
+            for fit, msgs in fits_msgs.items():
+                fit._publish_bulk(msgs)
 
     def _handle_item_unloaded(self, msg):
         item = msg.item
+        # Warfare buffs stop being applied to ship which goes away
+        if isinstance(item, Ship):
+            fits_msgs = {}
+            for projector in tuple(self.__projections.get_tgt_projectors(item)):
+                if projector not in self.__warfare_buffs:
+                    continue
+                fits_msgs.setdefault(projector.item._fit, []).append(
+                    EffectUnapplied(
+                        projector.item, projector.effect.id, (item,)))
+            for fit, msgs in fits_msgs.items():
+                fit._publish_bulk(msgs)
+        # Effects which stay projected onto the item stop affecting it (and,
+        # for ships, items aboard) until it is loaded again
+        self.__revise_tgt_projections(item, False)
         self.__affections.unregister_affectee_item(item)
         if isinstance(item, SolarSystemItemMixin):
             self.__projections.unregister_solsys_item(item)
+
+    def __revise_tgt_projections(self, tgt_item, tgt_loaded):
+        """(Un)register affector specs of effects projected onto the item.
+
+        Projection register keeps targets regardless of them being loaded,
+        while affector specs can be registered for loaded targets only.
+        """
+        attr_changes = {}
+        tgt_items = (tgt_item,)
+        for projector in tuple(self.__projections.get_tgt_projectors(tgt_item)):
+            for affector_spec in self.__generate_projected_affectors(
+                projector.item, (projector.effect.id,)
+            ):
+                if tgt_loaded:
+                    self.__affections.register_projected_affector_spec(
+                        affector_spec, tgt_items)
+                for affectee_item in (
+                    self.__affections.get_projected_affectee_items(
+                        affector_spec, tgt_items)
+                ):
+                    attr_id = affector_spec.modifier.affectee_attr_id
+                    if affectee_item.attrs._force_recalc(attr_id):
+                        attr_ids = attr_changes.setdefault(affectee_item, set())
+                        attr_ids.add(attr_id)
+                if not tgt_loaded:
+                    self.__affections.unregister_projected_affector(
+                        affector_spec, tgt_items)
+        if attr_changes:
+            self.__publish_attr_changes(attr_changes)
 
     def _handle_effects_started(self, msg):
         item = msg.item
